@@ -86,15 +86,25 @@ func payloadOf(b []byte) string {
 	return fmt.Sprintf("%v", v.Data)
 }
 
-func (a *adapter) preload(ks []int, bad []int) {
+func (a *adapter) preload(ks []int, bad []int, kinds []int) {
 	isBad := map[int]bool{}
-	for _, b := range bad {
+	kindOf := map[int]int{}
+	for n, b := range bad {
 		isBad[b] = true
+		if n < len(kinds) {
+			kindOf[b] = kinds[n]
+		} else {
+			kindOf[b] = b % 6
+		}
 	}
 	for i, k := range ks {
 		var data []byte
 		if isBad[i] {
-			switch (k + i) % 5 {
+			switch kindOf[i] {
+			case 5:
+				// a well-formed entry of a job that was already closed (written by another producer, or
+				// found at recovery): delivered, never run
+				data = []byte(fmt.Sprintf(`{"id":"id%d","status":"Closed","data":%d}`, k, k))
 			case 0:
 				data = []byte("{not json")
 			case 1:
